@@ -724,6 +724,10 @@ struct Bounds {
     /// operations acknowledged before the last point that makes them crash safe (manual persist mode)
     crash_safe: usize,
     db_open: bool,
+    /// default journal persist: a batch / transaction with durability None was acknowledged and nothing has flushed the
+    /// journal buffer since
+    pending_buffered: bool,
+    had_buffered: bool,
 }
 
 fn durability_of(op: &Op, manual: bool) -> (bool, bool) {
@@ -776,7 +780,21 @@ fn compute_bounds(recs: &[Rec], ops: &[Op], manual: bool) -> Vec<Bounds> {
                             if d {
                                 b.durable = b.acked;
                             }
-                            if c || !manual {
+                            // default journal persist: every acknowledged operation has been handed to the OS, except a
+                            // batch / transaction that asked for durability None (it stays in the journal's buffer
+                            // until a later operation or persist() flushes it)
+                            let buffered_by_request = !manual && !c && !d && matches!(op, Op::Batch { dur: 1, .. } | Op::Tx { dur: 1, .. });
+                            // operations that write the journal buffer out themselves under default persist
+                            let flushes = c
+                                || d
+                                || (!manual && matches!(op, Op::Insert { .. } | Op::Remove { .. } | Op::RemoveWeak { .. }));
+                            if buffered_by_request {
+                                b.pending_buffered = true;
+                                b.had_buffered = true;
+                            } else if flushes {
+                                b.pending_buffered = false;
+                            }
+                            if c || (!manual && !b.pending_buffered) {
                                 b.crash_safe = b.acked;
                             }
                         }
@@ -786,6 +804,7 @@ fn compute_bounds(recs: &[Rec], ops: &[Op], manual: bool) -> Vec<Bounds> {
                     // database dropped: the journal is synced on drop
                     b.durable = b.acked;
                     b.crash_safe = b.acked;
+                    b.pending_buffered = false;
                     b.db_open = false;
                 }
                 Some("O") => {
@@ -1203,6 +1222,7 @@ fn crash_like_case(mode: &str, seed: u64, idx: u64, thorough: bool, stats: &mut 
         }
         let creation_window_end = run.recs.iter().position(|r| r.kind == K_MARK && r.data.starts_with(b"O ok")).unwrap_or(0);
         let mut reported_creation_window = false;
+        let mut crash_lo_checked = 0usize;
         for k in 0..=n {
             // image "crash before record k" = records < k applied
             let b = bounds[k];
@@ -1227,7 +1247,14 @@ fn crash_like_case(mode: &str, seed: u64, idx: u64, thorough: bool, stats: &mut 
                     want_power = false;
                 }
                 "power" => {
-                    want_crash = plan.manual && prev_mutating;
+                    // process-crash images too: what persist(Buffer) / a later flushing operation promised for writes
+                    // that were only buffered (manual journal persist, batches with durability None)
+                    // also where the lower bound rose without any system call in between (a persist(Buffer) that did nothing)
+                    want_crash = (prev_mutating || (k > 0 && b.crash_safe > crash_lo_checked))
+                        && (plan.manual || (b.had_buffered && !b.pending_buffered));
+                    if want_crash {
+                        crash_lo_checked = b.crash_safe;
+                    }
                     want_power = prev_mutating || (k > 0 && at_mark);
                 }
                 _ => {
@@ -1293,7 +1320,7 @@ fn crash_like_case(mode: &str, seed: u64, idx: u64, thorough: bool, stats: &mut 
             };
             if want_crash {
                 ver.append_next = mode == "crash" && rng.chance(1, 4);
-                let lo = if plan.manual { b.crash_safe } else { b.acked };
+                let lo = if plan.manual || mode == "power" { b.crash_safe } else { b.acked };
                 run_check(&mut ver, &fs, false, lo, b.started, what_base(""), stats)?;
             }
             if want_power {
